@@ -149,6 +149,10 @@ PROPS = {
                             profile=Profile(dump=1.0, p_prune=0.3, p_noop_version=0.3, p_loadow=0.1, p_reopen=0.2,
                                             check_all_versions=0.05, p_hash_read=0.2, reads_per_version=(0, 1),
                                             imm_reads_per_version=(0, 1), meta_per_version=(0, 1)))]),
+    "C19": dict(kind="v1hist", quick_n=300, thorough_n=3000, gen="v2", mode="v2", profile=None,
+                title="v2 computes the same tree as v1"),
+    "C20": dict(kind="v1hist", quick_n=200, thorough_n=2000, gen="v2p", mode="v2", profile=None,
+                title="v2 persistence"),
     "C14": dict(kind="v1hist", quick_n=1500, thorough_n=4000,
                 profile=Profile(meta_per_version=(2, 5), p_load_old=0.25, p_prune=0.3, p_reopen=0.25,
                                 check_all_versions=0.2, p_noop_version=0.35),
@@ -192,6 +196,25 @@ def sig_multibatch_delete_cut(lines, d):
             and ("mixture:" in why or "load-failed" in why or "retry-" in why or "index:" in why))
 
 
+def sig_v2_recommit_sharded(lines, d):
+    # K22: v2: the history is continued (SaveVersion) after reloading an older version
+    idx = d["idx"]
+    saves = 0
+    for l in lines[:idx + 1]:
+        a = l.split()
+        if a[0] == "save":
+            saves += 1
+    reopened_older = False
+    n = 0
+    for l in lines[:idx + 1]:
+        a = l.split()
+        if a[0] == "save":
+            n += 1
+        if a[0] == "open" and len(a) > 1 and int(a[1]) < n:
+            reopened_older = True
+    return reopened_older and d["line"].split()[0] in ("save", "open") and (d["impl"] or "").startswith("err")
+
+
 def sig_empty_value_proof(lines, d):
     # K6: ics23 rejects an empty value: the proof (or a neighbour leaf of a non-membership proof) carries value `x`
     return d["kind"] == "oracle" and (" x " in (d["impl"] or "") and "proof" in d["line"])
@@ -199,6 +222,7 @@ def sig_empty_value_proof(lines, d):
 
 SIGNATURES = {
     "empty-value-proof": sig_empty_value_proof,
+    "v2-recommit-sharded": sig_v2_recommit_sharded,
     "multibatch-commit-cut": sig_multibatch_commit_cut,
     "multibatch-delete-cut": sig_multibatch_delete_cut,
     "multibatch-commit-fault": sig_multibatch_commit_fault,
@@ -260,7 +284,7 @@ def run_check(prop, tier, seed, n_override=None):
     broken = None
     try:
         try:
-            proof = C.prepare(prop)
+            proof = C.prepare(prop, v2=(cfg.get("mode") == "v2"))
         except C.BuildBroken as e:
             broken = {"what": e.what, "detail": e.detail}
             C.log("BUILD BROKEN:", e.what, "\n", e.detail)
@@ -271,7 +295,9 @@ def run_check(prop, tier, seed, n_override=None):
                 return 1
         proof_broken = broken is not None or proof["obligations"] != proof["discharged"] or bool(proof["grep_gate"])
         n = n_override or (cfg["thorough_n"] if (tier == "thorough" or proof_broken) else cfg["quick_n"])
-        if cfg.get("kind") == "multi":
+        if cfg.get("gen") in ("v2", "v2p"):
+            hists = corpus(prop) + v1gen.gen_v2(seed, n, persist=(cfg["gen"] == "v2p"))
+        elif cfg.get("kind") == "multi":
             hists = list(corpus(prop))
             groups = []
             for part in cfg["parts"]:
@@ -335,7 +361,9 @@ def run_check(prop, tier, seed, n_override=None):
             def still(lines, d0=d, hmode=hmode):
                 r = C.run_one(lines, work, mode=hmode, tag="shrink")
                 d1 = C.first_divergence(r, oracle)
-                return d1 is not None and d1["kind"] == d0["kind"] and not match_known(prop, lines, d1)
+                return (d1 is not None and d1["kind"] == d0["kind"] and not match_known(prop, lines, d1)
+                        and d1["line"].split()[0] == d0["line"].split()[0]
+                        and ((d1["impl"] or "").startswith("err") == (d0["impl"] or "").startswith("err")))
             small = C.shrink(h["lines"], still, budget_s=45 if tier == "quick" else 120)
             r = C.run_one(small, work, mode=hmode, tag="final")
             d1 = C.first_divergence(r, oracle) or d
